@@ -4,9 +4,9 @@ use std::io::{BufRead, Write};
 
 use serde::Deserialize;
 use serde_json::{json, Value};
-use winter_air::{Air, ConstraintCompositionCoefficients, TraceInfo};
+use winter_air::{Air, AuxRandElements, ConstraintCompositionCoefficients, LagrangeConstraintsCompositionCoefficients, LagrangeKernelRandElements};
 use winter_math::{FieldElement, StarkField};
-use winter_prover::{matrix::ColMatrix, CompositionPoly, ConstraintEvaluator, DefaultConstraintEvaluator, DefaultTraceLde, StarkDomain};
+use winter_prover::{matrix::ColMatrix, CompositionPoly, ConstraintEvaluator, DefaultConstraintEvaluator, DefaultTraceLde, StarkDomain, TraceLde};
 use winter_crypto::hashers::Blake3_256;
 
 use crate::common::{arg_value, guarded, panic_key, Rng};
@@ -26,16 +26,34 @@ pub fn main(args: &[String]) -> i32 {
             let mut rng = Rng(sc.seed ^ 0xc0);
             let cols = sc.shape.build_trace::<Toy>(sc.seed, sc.free_tail, false);
             let inputs = ShapeInputs::from_trace(&sc.shape, &cols);
-            let air = ShapeAir::<Toy>::new(TraceInfo::new(sc.shape.width, sc.shape.n), inputs.clone(), options_of(sc));
+            let air = ShapeAir::<Toy>::new(sc.shape.trace_info(), inputs.clone(), options_of(sc));
+            let has_aux = sc.shape.aux_width() > 0;
+            let log_n = sc.shape.n.ilog2() as usize;
             let nt = air.context().num_transition_constraints();
             let na = air.context().num_assertions();
             let cct: Vec<Toy> = (0..nt).map(|_| Toy::new(1 + rng.below(P - 1))).collect();
             let ccb: Vec<Toy> = (0..na).map(|_| Toy::new(1 + rng.below(P - 1))).collect();
-            let coeffs = ConstraintCompositionCoefficients { transition: cct.clone(), boundary: ccb.clone(), lagrange: None };
+            // auxiliary segment: random elements, Lagrange random elements and coefficients chosen by the harness
+            let rands: Vec<Toy> = (0..sc.shape.aux_rands).map(|_| Toy::new(1 + rng.below(P - 1))).collect();
+            let lrands: Vec<Toy> = if sc.shape.lagrange { (0..log_n).map(|_| Toy::new(2 + rng.below(P - 3))).collect() } else { vec![] };
+            let lct: Vec<Toy> = if sc.shape.lagrange { (0..log_n).map(|_| Toy::new(1 + rng.below(P - 1))).collect() } else { vec![] };
+            let lcb = Toy::new(1 + rng.below(P - 1));
+            let coeffs = ConstraintCompositionCoefficients {
+                transition: cct.clone(),
+                boundary: ccb.clone(),
+                lagrange: if sc.shape.lagrange { Some(LagrangeConstraintsCompositionCoefficients { transition: lct.clone(), boundary: lcb }) } else { None },
+            };
             let domain = StarkDomain::new(&air);
             let main = ColMatrix::new(cols.clone());
-            let (trace_lde, _polys) = DefaultTraceLde::<Toy, Blake3_256<Toy>>::new(air.trace_info(), &main, &domain);
-            let evaluator = DefaultConstraintEvaluator::<ShapeAir<Toy>, Toy>::new(&air, None, coeffs);
+            let (mut trace_lde, _polys) = DefaultTraceLde::<Toy, Blake3_256<Toy>>::new(air.trace_info(), &main, &domain);
+            let aux_cols: Vec<Vec<Toy>> = if has_aux { sc.shape.build_aux::<Toy, Toy>(&cols, &rands, if sc.shape.lagrange { Some(&lrands) } else { None }) } else { vec![] };
+            let aux_rand = if has_aux {
+                trace_lde.set_aux_trace(&ColMatrix::new(aux_cols.clone()), &domain);
+                Some(AuxRandElements::new_with_lagrange(rands.clone(), if sc.shape.lagrange { Some(LagrangeKernelRandElements::new(lrands.clone())) } else { None }))
+            } else {
+                None
+            };
+            let evaluator = DefaultConstraintEvaluator::<ShapeAir<Toy>, Toy>::new(&air, aux_rand, coeffs);
             let cp_trace = evaluator.evaluate(&trace_lde, &domain);
             let ccols = air.context().num_constraint_composition_columns();
             let cp = CompositionPoly::new(cp_trace, &domain, ccols);
@@ -56,6 +74,10 @@ pub fn main(args: &[String]) -> i32 {
                    "asserts": sc.shape.asserts, "avalues": inputs.values.iter().map(|v| v.iter().map(|e| e.v()).collect::<Vec<_>>()).collect::<Vec<_>>(),
                    "trace": cols.iter().map(|c| c.iter().map(|e| e.v()).collect::<Vec<_>>()).collect::<Vec<_>>(),
                    "cct": cct.iter().map(|e| e.v()).collect::<Vec<_>>(), "ccb": ccb.iter().map(|e| e.v()).collect::<Vec<_>>(),
+                   "aux_degs": sc.shape.aux_degs, "lagrange": sc.shape.lagrange, "aux_asserts": sc.shape.aux_asserts,
+                   "aux": aux_cols.iter().map(|c| c.iter().map(|e| e.v()).collect::<Vec<_>>()).collect::<Vec<_>>(),
+                   "rands": rands.iter().map(|e| e.v()).collect::<Vec<_>>(), "lrands": lrands.iter().map(|e| e.v()).collect::<Vec<_>>(),
+                   "lct": lct.iter().map(|e| e.v()).collect::<Vec<_>>(), "lcb": lcb.v(), "nmain_asserts": sc.shape.asserts.len(),
                    "g": Toy::get_root_of_unity(sc.shape.n.ilog2()).v(), "points": points})
         });
         match r {
